@@ -33,6 +33,14 @@ let run toks =
     let f = (if s 0 = "gatherv" then sc_gatherv else sc_allgatherv) in
     let (rc, r) = f (parse_hex (s 4)) (zi (i 2)) (dt (s 1)) (sentbuf (i 5)) (zi (i 2)) (zi (i 3)) (dt (s 1)) in
     prc rc ^ " " ^ pbuf r
+  | "gathervx" | "allgathervx" ->
+    let f = (if s 0 = "gathervx" then sc_gatherv else sc_allgatherv) in
+    let (rc, r) = f (parse_hex (s 6)) (zi (i 2)) (dt (s 1)) (sentbuf (i 7)) (zi (i 4)) (zi (i 5)) (dt (s 3)) in
+    prc rc ^ " " ^ pbuf r
+  | "gatherx" | "allgatherx" | "alltoallx" ->
+    let f = (match s 0 with "gatherx" -> sc_gather | "allgatherx" -> sc_allgather | _ -> sc_alltoall) in
+    let (rc, r) = f (parse_hex (s 5)) (zi (i 2)) (dt (s 1)) (sentbuf (i 6)) (zi (i 4)) (dt (s 3)) in
+    prc rc ^ " " ^ pbuf r
   | "reduce" | "allreduce" | "reduce_scatter_block" | "scan" | "exscan" ->
     let f = (match s 0 with "reduce" -> sc_reduce | "allreduce" -> sc_allreduce | "reduce_scatter_block" -> sc_reduce_scatter_block
                           | "scan" -> sc_scan | _ -> sc_exscan) in
